@@ -16,6 +16,7 @@ CFG = ("INIT Init\nNEXT Next\nCONSTRAINT Emit\nINVARIANT ComposedOK\n"
        " LaterSels <- MCLater\nCHECK_DEADLOCK FALSE\n")
 ORIGIN_FEATS = ("deform", "area_um", "image", "mask", "contour", "trace",
                 "fl1_max", "frame")
+INTERNAL_FEATS = ("image", "mask", "fl1_max", "frame")
 OWN_SHIFT = 0.5
 
 
@@ -56,6 +57,22 @@ def derive(src, rec, out, k, alter=False):
                 gch = dclab.new_dataset(ch)
                 gch.export.hdf5(out, features=feats, filtered=False,
                                 basins=True)
+    elif rec["how"] == "internal":
+        with dclab.new_dataset(src) as ds:
+            meta = {s: dict(ds.config[s]) for s in
+                    ("experiment", "imaging", "setup", "fluorescence")
+                    if s in ds.config}
+            data = {f: np.asarray(ds[f][:])[sel] for f in feats}
+            rows = {f: np.asarray(ds[f][:]) for f in INTERNAL_FEATS}
+        meta["experiment"].pop("event count", None)
+        with RTDCWriter(out, mode="reset") as hw:
+            hw.store_metadata(meta)
+            for f in feats:
+                hw.store_feature(f, data[f])
+            hw.store_basin("rows %d" % k, "internal", "h5dataset",
+                           ["basin_events"], basin_feats=list(INTERNAL_FEATS),
+                           basin_map=np.array(sel, dtype=np.uint64),
+                           internal_data=rows)
     else:
         with dclab.new_dataset(src) as ds:
             rid = ds.get_measurement_identifier()
@@ -88,6 +105,9 @@ def verify(path, rec, where, altered=False, fresh=None):
                 len(ds), n)))
             return out
         for f in ORIGIN_FEATS:
+            if rec["how"] == "internal" and f not in INTERNAL_FEATS \
+                    and f not in ("deform", "area_um" if rec["own"] else ""):
+                continue          # only the rows the file carries itself
             if f not in ds:
                 out.append(("basin feature not offered (%s, %s)" % (
                     "scalar" if f in ("deform", "area_um", "fl1_max",
